@@ -43,6 +43,8 @@ def run(chk: Check):
                               slow=(8,), tail_fast=8)
     traces += D.engine_traces(gs.HMCKernel, ["zz", "aa"], ["mm", "Beta"], False, seed=chk.seed + 13, chains=2, fast=6, slow=(9, 6),
                               tail_fast=9)
+    # next to a kernel whose own tuning reports an error code (identifiers in non-alphabetical order)
+    traces += D.engine_traces(gs.NUTSKernel, ["zz", "aa"], ["mm"], True, seed=chk.seed + 14, chains=3, companion="tuneerr", slow=(8, 10))
     if not chk.quick:
         traces += D.engine_traces(gs.HMCKernel, ["zz", "aa"], ["mm", "Beta"], False, seed=chk.seed + 1)
         traces += D.engine_traces(gs.NUTSKernel, ["k", "b1", "Z"], ["alpha_2"], False, seed=chk.seed + 2, slow=(9, 9, 12))
